@@ -10,6 +10,17 @@
 // @oracle every row has one cell per heading: after each row the table has the 3 user-punch columns, the row count grows by one (plus the heading row), values punched are where their heading is and headings not punched in that row are empty cells - also when a row punched nothing at all (otherwise the number of rows of a run depends on whether that row happens to be the first of a call)
 // @stubs Phreeqc engine (events); PHRQ_io::fpunchf base (no stream)
 // @outside what the BASIC program computes
+// @id C05.user_punch_switch_off_adds_no_columns
+// @engine B
+// @entry vfh_C05_end_row_switch
+// @shared_state_watch
+// @tier Q
+// @reach end_row.done
+// @funcs IPhreeqc::EndRow; IPhreeqc::fpunchf; CSelectedOutput::EndRow
+// @bounds the wrapper's row-closing step for a SELECTED_OUTPUT block with one built-in column whose -user_punch switch is true or false while a USER_PUNCH block with 3 headings of the same number exists; 1..2 rows (case split)
+// @oracle table and text views have the same columns: with -user_punch false the USER_PUNCH headings are written to neither the heading line nor the data lines (tidy_punch and punch_user_punch test the switch), so the value table has only the built-in column; with -user_punch true it has the built-in column plus the three user columns
+// @stubs Phreeqc engine (events); PHRQ_io::fpunchf base (no stream)
+// @outside the text views themselves (C05.fpunchf_complete, C09.do_run_views)
 #include "../common/engine_stubs.inc"
 #include "SelectedOutput.h"
 #include "UserPunch.h"
@@ -53,4 +64,38 @@ extern "C" void vfh_C05_end_row(void)
 		}
 	}
 	vf_reach("end_row.done");
+}
+
+/* SELECTED_OUTPUT -user_punch false: the block's USER_PUNCH program is not run and its headings are not written to the text
+   views (tidy_punch, punch_user_punch test the switch), so the value table must not get those columns either */
+extern "C" void vfh_C05_end_row_switch(void)
+{
+	new (&IPhreeqc::Instances) std::map<size_t, IPhreeqc*>();
+	IPhreeqc::InstancesIndex = 0;
+	IPhreeqc *ip = new IPhreeqc();
+	Phreeqc *p = ip->PhreeqcPtr;
+	new (&p->UserPunch_map) std::map<int, UserPunch>();
+	p->SelectedOutput_map[1].Set_n_user(1);
+	int on = (int) vf_int("user_punch_switch", 0, 1);
+	p->SelectedOutput_map[1].Set_user_punch(on != 0);
+	p->current_selected_output = &p->SelectedOutput_map[1];
+	ip->SelectedOutputMap[1] = new CSelectedOutput();
+	ip->SelectedOutputStringMap[1] = std::string();
+	UserPunch up;
+	std::vector<std::string> h; h.push_back("alpha"); h.push_back("beta"); h.push_back("gamma");
+	up.Set_headings(h);
+	p->current_user_punch = &up;
+	ip->punch_on = true;
+	CSelectedOutput *t = ip->SelectedOutputMap[1];
+	int rows = (int) vf_int("rows", 1, 2);
+	for (int row = 1; row <= rows; row++)
+	{
+		ip->fpunchf("pH", "%12.4e\t", 7.0 + row);                 /* a built-in column */
+		if (on) for (int i = 0; i < 3; i++) ip->fpunchf(h[i].c_str(), "%12.4e\t", 100.0 * row + i);
+		p->n_user_punch_index = on ? 3 : 0;
+		ip->EndRow();
+	}
+	vf_reach("end_row.done");
+	vf_check("switch.table_has_the_columns_of_the_text_views", (int) t->GetColCount() == (on ? 4 : 1));
+	vf_check("switch.rows", (int) t->GetRowCount() == rows + 1);
 }
